@@ -29,6 +29,7 @@ F22 = "C20-comment-with-line-break-inside-one-line-construct"
 F23 = "C20-comment-dropped"
 F24 = "C20-whitespace-inside-string-literal-rewritten"
 F25 = "C20-blanks-inside-comment-rewritten-per-pass"
+F26 = "C20-formfeed-inside-literal-or-comment"
 
 SCAN_MAX = 1200
 
@@ -452,7 +453,7 @@ class C20(Property):
         # must be caught by construction, not by the luck of VERIF_SEED): EMPTY forms of every
         # grouping construct in every position; white space as / inside every string literal
         seen = {c["src"] for c in res}
-        fixed = c20gen.empty_matrix() + c20gen.lexeme_core()
+        fixed = c20gen.empty_matrix() + c20gen.lexeme_core(ff=self._on(F26))
         # every statement kind the formatter deletes x what stands before it x what stands behind it
         # (240 small programs; seed C20-6)
         if all(self._on(f) for f in (F15, F21)):
@@ -476,16 +477,16 @@ class C20(Property):
         # values, white-space and encoding variants of one program): all ~1150 tiny programs in the
         # thorough tier, a random third of them per quick run
         if tier != "search":
-            core = set(c20gen.lexeme_core())
+            core = set(c20gen.lexeme_core(ff=True))
             lm = [x for x in c20gen.lexeme_matrix() if x not in core]
             for src in (lm if tier == "thorough" else rng.sample(lm, len(lm) // 3)):
                 cases.append({"src": src, "muts": []})
         # invalid sources, enumerated: per-position single-character mutations of a small corpus that
         # uses every construct (each one a case of its own: model scanner / model parser must agree
         # with goctl on where and whether it is rejected; rejected = an error, not a crash).  One slice
-        # of them per quick run (which one depends on VERIF_SEED), a quarter in the thorough tier.
+        # of them per quick run (which one depends on VERIF_SEED), an eighth in the thorough tier.
         if tier != "search":
-            parts = 48 if tier == "quick" else 4
+            parts = 48 if tier == "quick" else 8
             for src in c20gen.char_mutations(rng.randrange(parts), parts):
                 cases.append({"src": src, "muts": [], "enum": True})
         on = {f: self._on(f) for f in (F10, F15, F16, F17, F18, F19, F20, F21, F24, F25)}
